@@ -1,6 +1,6 @@
 (* C09 Accepted programs are well formed; malformed ones never compile silently. *)
 From Coq Require Import List String.
-From PC Require Import Comp.Syntax Comp.Struct Comp.StructProofs Comp.Compile Comp.Denote Comp.EmitProofs Comp.WfCheck Comp.WfPil Comp.CompileProofs.
+From PC Require Import Comp.Syntax Comp.Struct Comp.StructProofs Comp.Compile Comp.Denote Comp.EmitProofs Comp.WfCheck Comp.WfPil Comp.CompileProofs Design.Designer Design.CrossProofs.
 Import ListNotations.
 
 (* whenever output is produced for a well-formed object, the document passes the executable
@@ -36,3 +36,10 @@ Print Assumptions C09_accepted_wf_pil.
 Theorem C09_reserved_names : forall n, is_anon n = true <-> exists t, n = String.append "_Anon" t.
 Proof. exact is_anon_spec. Qed.
 Print Assumptions C09_reserved_names.
+
+(* what the predicate buys downstream: a document that passes it, with nucleotide codes as templates, is
+   accepted by the designer's loader (a simulation between the two readers, line by line) *)
+Theorem C09_wf_pil_documents_load : forall ls, wf_pil ls = true ->
+  (forall n k len, In (PSeq n k len) ls -> valid_template k = true) -> exists p, load_spec ls pspec0 = OK p.
+Proof. exact wf_pil_loads. Qed.
+Print Assumptions C09_wf_pil_documents_load.
